@@ -231,6 +231,49 @@ impl GenerationPass for AvailableValuePass {
                     } else if let Some((memory, value)) = node.gen_memory_value() {
                         map.insert(memory, value);
                     }
+                    // Writes that may land in the frame without naming one
+                    // of its slots: a store through a register that is not
+                    // known to point elsewhere, and whatever a called
+                    // function does with a pointer it was handed. The saved
+                    // registers are taken to survive (a program that
+                    // overwrites those is broken in any case); every other
+                    // remembered slot is forgotten.
+                    let may_write_frame = match &node.node() {
+                        ParserNode::Store(store) if !store.rs1.get().is_stack_pointer() => {
+                            match node.reg_values_in().get(store.rs1.get()) {
+                                Some(AvailableValue::OriginalRegisterWithScalar(base, off))
+                                    if base.is_stack_pointer() =>
+                                {
+                                    // a known slot after all
+                                    map.insert(
+                                        MemoryLocation::StackOffset(
+                                            off.wrapping_add(store.imm.get().value()),
+                                        ),
+                                        AvailableValue::RegisterWithScalar(
+                                            store.rs2.get_cloned(),
+                                            0,
+                                        ),
+                                    );
+                                    false
+                                }
+                                Some(AvailableValue::Address(_)) => false,
+                                _ => true,
+                            }
+                        }
+                        _ => node.calls_to().is_some(),
+                    };
+                    if may_write_frame {
+                        map = map
+                            .into_iter()
+                            .filter(|(location, value)| {
+                                !matches!(location, MemoryLocation::StackOffset(_))
+                                    || matches!(
+                                        value,
+                                        AvailableValue::OriginalRegisterWithScalar(_, _)
+                                    )
+                            })
+                            .collect();
+                    }
                     map
                 };
 
